@@ -254,6 +254,12 @@ func checkUploadIDRepo(id, repo string) error {
 	if name := rest[:i]; name != repo {
 		return fmt.Errorf("upload ID is for repository %q, not %q", name, repo)
 	}
+	if ref := rest[i+len("/blobs/uploads/"):]; strings.Contains(ref, "/") {
+		// The last elements of a path decide what it stands for:
+		// /v2/<repo>/blobs/uploads/x/manifests/y is a manifest
+		// of the repository <repo>/blobs/uploads/x.
+		return fmt.Errorf("upload ID %q is not an upload location", id)
+	}
 	return nil
 }
 
